@@ -5,8 +5,8 @@ lock-protected section may do to configuration and ghost log (`Ext`), and the in
 histories (`Op`, `step`, `run`; histories may restart the process with another signature mode):
 every store that holds a document holds one that was accepted under the policy configured at its intake;
 every stored signer certificate verified a list of that location; under `verify` whatever is loaded carries
-a signer certificate; and — along histories whose provisioning steps are safe (`ProvisionsSafe`) — a store
-with a signer certificate holds a verified list.
+a signer certificate; and a store with a signer certificate holds a verified list (the signature-certificate
+retry of `AddCRL` only touches loaded entries, regenerated fact `retryOnlyWhenLoaded`).
 -/
 namespace Crv.Repo
 open Crv Crv.Generated
@@ -305,11 +305,11 @@ theorem ext_addCRL (s : State) (loc : Loc) (cands : List Signer) : Ext s (addCRL
       split
       · split
         · exact ((ext_setEntry s loc _).trans (ext_setEntry _ loc _)).trans (ext_loadActively _ loc _ cands)
-        · simp only [hnf, Bool.false_eq_true, ↓reduceIte]
+        · simp only [hnf, Bool.false_and, Bool.false_eq_true, ↓reduceIte]
           exact (ext_setEntry s loc _).trans (ext_setEntry _ loc _)
       · split
         · exact (ext_setEntry s loc _).trans (ext_loadActively _ loc _ cands)
-        · simp only [hnf, Bool.false_eq_true, ↓reduceIte]
+        · simp only [hnf, Bool.false_and, Bool.false_eq_true, ↓reduceIte]
           exact ext_setEntry s loc _
 
 theorem ext_updateOne (s : State) (loc : Loc) : Ext s (updateOne s loc) := by
@@ -394,22 +394,20 @@ def Verified (s : State) (loc : Loc) (d : DocA) : Prop :=
 def SignerSeen (s : State) (loc : Loc) (sg : Signer) : Prop :=
   ∃ a ∈ s.log, a.loc = loc ∧ a.doc.signer = sg ∧ verifies a.doc a.cands = true
 
-/-- `k = true` adds the clauses that only hold along histories whose provisioning steps satisfy `ProvisionsSafe`. -/
-structure StoreOK (k : Bool) (s : State) (loc : Loc) (st : Store) : Prop where
+structure StoreOK (s : State) (loc : Loc) (st : Store) : Prop where
   accepted : ∀ d, st.doc = some d → Accepted s loc d
   signer : ∀ sg, st.signer = some sg → SignerSeen s loc sg
-  verified : k = true → ∀ d, st.doc = some d → st.signer.isSome = true → Verified s loc d
+  verified : ∀ d, st.doc = some d → st.signer.isSome = true → Verified s loc d
 
-structure EntryOK (k : Bool) (s : State) (loc : Loc) (e : Entry) : Prop where
-  store : StoreOK k s loc e.store
+structure EntryOK (s : State) (loc : Loc) (e : Entry) : Prop where
+  store : StoreOK s loc e.store
   loadedDoc : e.loaded = true → e.store.doc.isSome = true
   verifySigner : s.cfg.sigMode = .verify → e.loaded = true → e.store.signer.isSome = true
   failed : e.sigFailed = true → s.cfg.sigMode = .verify ∨
     (s.cfg.sigMode = .verifyLog ∧ e.loaded = true ∧ ∀ d, e.lastDoc = some d → e.store.doc = some d)
-  failedLoaded : k = true → e.sigFailed = true → e.loaded = true
 
-def Inv (k : Bool) (s : State) : Prop :=
-  (∀ p ∈ s.entries, EntryOK k s p.1 p.2) ∧ (∀ p ∈ s.disk, StoreOK k s p.1 p.2)
+def Inv (s : State) : Prop :=
+  (∀ p ∈ s.entries, EntryOK s p.1 p.2) ∧ (∀ p ∈ s.disk, StoreOK s p.1 p.2)
 
 theorem accepted_mono {s s' : State} (hl : ∀ a ∈ s.log, a ∈ s'.log) {loc : Loc} {d : DocA}
     (h : Accepted s loc d) : Accepted s' loc d := by
@@ -426,23 +424,23 @@ theorem signerSeen_mono {s s' : State} (hl : ∀ a ∈ s.log, a ∈ s'.log) {loc
   obtain ⟨a, ha, h1, h2, h3⟩ := h
   exact ⟨a, hl a ha, h1, h2, h3⟩
 
-theorem storeOK_mono {k : Bool} {s s' : State} (hl : ∀ a ∈ s.log, a ∈ s'.log) {loc : Loc} {st : Store}
-    (h : StoreOK k s loc st) : StoreOK k s' loc st :=
+theorem storeOK_mono {s s' : State} (hl : ∀ a ∈ s.log, a ∈ s'.log) {loc : Loc} {st : Store}
+    (h : StoreOK s loc st) : StoreOK s' loc st :=
   ⟨fun d hd => accepted_mono hl (h.accepted d hd), fun sg hs => signerSeen_mono hl (h.signer sg hs),
-   fun hk d hd hs => verified_mono hl (h.verified hk d hd hs)⟩
+   fun d hd hs => verified_mono hl (h.verified d hd hs)⟩
 
-theorem entryOK_mono {k : Bool} {s s' : State} (hm : s'.cfg.sigMode = s.cfg.sigMode) (hl : ∀ a ∈ s.log, a ∈ s'.log)
-    {loc : Loc} {e : Entry} (h : EntryOK k s loc e) : EntryOK k s' loc e :=
-  ⟨storeOK_mono hl h.store, h.loadedDoc, by rw [hm]; exact h.verifySigner, by rw [hm]; exact h.failed, h.failedLoaded⟩
+theorem entryOK_mono {s s' : State} (hm : s'.cfg.sigMode = s.cfg.sigMode) (hl : ∀ a ∈ s.log, a ∈ s'.log)
+    {loc : Loc} {e : Entry} (h : EntryOK s loc e) : EntryOK s' loc e :=
+  ⟨storeOK_mono hl h.store, h.loadedDoc, by rw [hm]; exact h.verifySigner, by rw [hm]; exact h.failed⟩
 
-theorem storeOK_empty (k : Bool) (s : State) (loc : Loc) : StoreOK k s loc {} :=
-  ⟨fun d hd => (by cases hd), fun sg hs => (by cases hs), fun _ d hd => (by cases hd)⟩
+theorem storeOK_empty (s : State) (loc : Loc) : StoreOK s loc {} :=
+  ⟨fun d hd => (by cases hd), fun sg hs => (by cases hs), fun d hd => (by cases hd)⟩
 
 /-- Transport of the invariant to a state with the same signature mode and a longer log, given the new lists. -/
-theorem inv_of (k : Bool) (s s' : State) (hm : s'.cfg.sigMode = s.cfg.sigMode) (hl : ∀ a ∈ s.log, a ∈ s'.log)
-    (he : ∀ p ∈ s'.entries, p ∈ s.entries ∨ EntryOK k s' p.1 p.2)
-    (hd : ∀ p ∈ s'.disk, p ∈ s.disk ∨ StoreOK k s' p.1 p.2)
-    (h : Inv k s) : Inv k s' := by
+theorem inv_of (s s' : State) (hm : s'.cfg.sigMode = s.cfg.sigMode) (hl : ∀ a ∈ s.log, a ∈ s'.log)
+    (he : ∀ p ∈ s'.entries, p ∈ s.entries ∨ EntryOK s' p.1 p.2)
+    (hd : ∀ p ∈ s'.disk, p ∈ s.disk ∨ StoreOK s' p.1 p.2)
+    (h : Inv s) : Inv s' := by
   refine ⟨?_, ?_⟩
   · intro p hp
     rcases he p hp with hold | hnew
@@ -458,10 +456,10 @@ theorem setEntry_log (s : State) (loc : Loc) (e : Entry) : (setEntry s loc e).lo
 
 /-- Writing an entry (and, with the disk backend, its store) and appending to the ghost log keeps the invariant when the
 entry written is fine in the new state. -/
-theorem inv_setEntry_log (k : Bool) (s : State) (loc : Loc) (e : Entry) (l : List Accept) (h : Inv k s)
-    (he : EntryOK k { setEntry s loc e with log := s.log ++ l } loc e) :
-    Inv k { setEntry s loc e with log := s.log ++ l } := by
-  refine inv_of k s { setEntry s loc e with log := s.log ++ l } rfl (fun a ha => by simp [ha]) ?_ ?_ h
+theorem inv_setEntry_log (s : State) (loc : Loc) (e : Entry) (l : List Accept) (h : Inv s)
+    (he : EntryOK { setEntry s loc e with log := s.log ++ l } loc e) :
+    Inv { setEntry s loc e with log := s.log ++ l } := by
+  refine inv_of s { setEntry s loc e with log := s.log ++ l } rfl (fun a ha => by simp [ha]) ?_ ?_ h
   · intro p hp
     rcases mem_upsert _ _ _ _ hp with rfl | hold
     · exact Or.inr he
@@ -476,9 +474,9 @@ theorem inv_setEntry_log (k : Bool) (s : State) (loc : Loc) (e : Entry) (l : Lis
     · simp only [hdk, Bool.false_eq_true, ↓reduceIte] at hp
       exact Or.inl hp
 
-theorem inv_setEntry (k : Bool) (s : State) (loc : Loc) (e : Entry) (h : Inv k s) (he : EntryOK k s loc e) :
-    Inv k (setEntry s loc e) := by
-  refine inv_of k s (setEntry s loc e) rfl (fun a ha => ha) ?_ ?_ h
+theorem inv_setEntry (s : State) (loc : Loc) (e : Entry) (h : Inv s) (he : EntryOK s loc e) :
+    Inv (setEntry s loc e) := by
+  refine inv_of s (setEntry s loc e) rfl (fun a ha => ha) ?_ ?_ h
   · intro p hp
     rcases mem_upsert _ _ _ _ hp with rfl | hold
     · exact Or.inr (entryOK_mono (s := s) (s' := setEntry s loc e) rfl (fun a ha => ha) he)
@@ -494,9 +492,9 @@ theorem inv_setEntry (k : Bool) (s : State) (loc : Loc) (e : Entry) (h : Inv k s
       exact Or.inl hp
 
 /-- The store a successful staging produced is fine wherever the acceptance is in the log. -/
-theorem storeOK_staged (k : Bool) (s' : State) (loc : Loc) (m : SigMode) (hm : Bool) (sv : Served) (cands : List Signer)
+theorem storeOK_staged (s' : State) (loc : Loc) (m : SigMode) (hm : Bool) (sv : Served) (cands : List Signer)
     (st : Store) (d : DocA) (v : Bool) (hst : stage m hm sv cands = .ok st d v)
-    (hlog : (⟨loc, d, cands, m⟩ : Accept) ∈ s'.log) : StoreOK k s' loc st := by
+    (hlog : (⟨loc, d, cands, m⟩ : Accept) ∈ s'.log) : StoreOK s' loc st := by
   obtain ⟨_, hdoc, _, hacc, _⟩ := stage_ok _ _ _ _ _ _ _ hst
   have hsg := stage_ok_signer _ _ _ _ _ _ _ hst
   refine ⟨?_, ?_, ?_⟩
@@ -508,15 +506,15 @@ theorem storeOK_staged (k : Bool) (s' : State) (loc : Loc) (m : SigMode) (hm : B
     · rw [h2] at hs; cases hs
       exact ⟨_, hlog, rfl, rfl, h3⟩
     · rw [h2] at hs; cases hs
-  · intro _ d' hd' hs
+  · intro d' hd' hs
     rw [hdoc] at hd'; cases hd'
     rcases hsg with ⟨_, _, h3⟩ | ⟨_, h2, _⟩
     · exact ⟨_, hlog, rfl, rfl, h3⟩
     · rw [h2] at hs; cases hs
 
 /-- First load of a not yet loaded entry. -/
-theorem inv_loadCRL (k : Bool) (s : State) (loc : Loc) (e : Entry) (cands : List Signer) (h : Inv k s)
-    (he : EntryOK k s loc e) (hnl : e.loaded = false) : Inv k (loadCRL s loc e cands).1 := by
+theorem inv_loadCRL (s : State) (loc : Loc) (e : Entry) (cands : List Signer) (h : Inv s)
+    (he : EntryOK s loc e) (hnl : e.loaded = false) : Inv (loadCRL s loc e cands).1 := by
   unfold loadCRL
   by_cases hc : loadRefused s e = true
   · simp only [hc, ↓reduceIte]; exact h
@@ -525,8 +523,8 @@ theorem inv_loadCRL (k : Bool) (s : State) (loc : Loc) (e : Entry) (cands : List
     | ok st d v =>
       obtain ⟨_, hdoc, _, _, _⟩ := stage_ok _ _ _ _ _ _ _ hst
       have hsg := stage_ok_signer _ _ _ _ _ _ _ hst
-      apply inv_setEntry_log k s loc _ [⟨loc, d, cands, s.cfg.sigMode⟩] h
-      refine ⟨storeOK_staged k _ loc _ _ _ _ _ _ _ hst (by simp), ?_, ?_, ?_, ?_⟩
+      apply inv_setEntry_log s loc _ [⟨loc, d, cands, s.cfg.sigMode⟩] h
+      refine ⟨storeOK_staged _ loc _ _ _ _ _ _ _ hst (by simp), ?_, ?_, ?_⟩
       · intro _; show st.doc.isSome = true; rw [hdoc]; rfl
       · intro hmv _
         show st.signer.isSome = true
@@ -537,16 +535,15 @@ theorem inv_loadCRL (k : Bool) (s : State) (loc : Loc) (e : Entry) (cands : List
         rcases he.failed hsf with h1 | ⟨_, h2, _⟩
         · exact Or.inl h1
         · rw [hnl] at h2; cases h2
-      · intro _ _; rfl
     | fetchFail => exact h
     | parseFail => exact h
     | sigFail d => exact h
 
-/-- Refresh. With `k = true` the entry has to be loaded or the mode not `verify`: a refresh of a *not loaded* entry that fails
-verification under `verify` leaves the failure flag on an entry whose (persisted, possibly never verified) list is not in force. -/
-theorem inv_updateCrlEntry (k : Bool) (s : State) (loc : Loc) (e : Entry) (nc : Option (List Signer)) (h : Inv k s)
-    (he : EntryOK k s loc e) (hk : k = true → e.loaded = true ∨ s.cfg.sigMode ≠ .verify) :
-    Inv k (updateCrlEntry s loc e nc).1 := by
+/-- Refresh, whatever the loaded flag (`UpdateCRL` of provisioning refreshes not loaded entries too): a refresh of a *not loaded*
+entry that fails verification under `verify` leaves the failure flag on an entry whose (persisted, possibly never verified)
+list is not in force — the signature-certificate retry does not touch such an entry (`retryOnlyWhenLoaded`). -/
+theorem inv_updateCrlEntry (s : State) (loc : Loc) (e : Entry) (nc : Option (List Signer)) (h : Inv s)
+    (he : EntryOK s loc e) : Inv (updateCrlEntry s loc e nc).1 := by
   unfold updateCrlEntry
   by_cases hc : refreshRefused s e = true
   · simp only [hc, ↓reduceIte]; exact h
@@ -558,9 +555,9 @@ theorem inv_updateCrlEntry (k : Bool) (s : State) (loc : Loc) (e : Entry) (nc : 
       | ok st d v =>
         obtain ⟨_, hdoc, _, _, _⟩ := stage_ok _ _ _ _ _ _ _ hst
         have hsg := stage_ok_signer _ _ _ _ _ _ _ hst
-        apply inv_setEntry_log k s loc _ [⟨loc, d, refreshCands e nc, s.cfg.sigMode⟩] h
+        apply inv_setEntry_log s loc _ [⟨loc, d, refreshCands e nc, s.cfg.sigMode⟩] h
         have hloaded : (e.loaded || updateMarksLoaded) = true := by simp [updateMarksLoaded]
-        refine ⟨storeOK_staged k _ loc _ _ _ _ _ _ _ hst (by simp), ?_, ?_, ?_, ?_⟩
+        refine ⟨storeOK_staged _ loc _ _ _ _ _ _ _ hst (by simp), ?_, ?_, ?_⟩
         · intro _; show st.doc.isSome = true; rw [hdoc]; rfl
         · intro hmv _
           show st.signer.isSome = true
@@ -584,36 +581,31 @@ theorem inv_updateCrlEntry (k : Bool) (s : State) (loc : Loc) (e : Entry) (nc : 
               show st.doc = some d'
               rw [hdoc, hd']
             | verify => exact absurd hmode hne
-        · intro _ _; exact hloaded
       | fetchFail => exact h
       | parseFail => exact h
       | sigFail d =>
         have hmv := (stage_sigFail _ _ _ _ hst).1
-        apply inv_setEntry k s loc _ h
-        refine ⟨he.store, he.loadedDoc, he.verifySigner, fun _ => Or.inl hmv, ?_⟩
-        intro hk' _
-        rcases hk hk' with h1 | h1
-        · exact h1
-        · exact absurd hmv h1
+        apply inv_setEntry s loc _ h
+        exact ⟨he.store, he.loadedDoc, he.verifySigner, fun _ => Or.inl hmv⟩
 
 end Crv.Repo
 
 namespace Crv.Repo
 open Crv Crv.Generated
 
-theorem entryOK_of_mem (k : Bool) (s : State) (h : Inv k s) (loc : Loc) (e : Entry) (hm : lookup s.entries loc = some e) :
-    EntryOK k s loc e :=
+theorem entryOK_of_mem (s : State) (h : Inv s) (loc : Loc) (e : Entry) (hm : lookup s.entries loc = some e) :
+    EntryOK s loc e :=
   h.1 (loc, e) (lookup_mem _ _ _ hm)
 
 /-- `addNewEmptyEntry`: the entry opened over the persisted directory. Under `verify` it only counts as loaded when a signer
 certificate is stored with the list (regenerated fact `persistedNeedsSignerUnderVerify`). -/
-theorem entryOK_new (k : Bool) (s : State) (h : Inv k s) (loc : Loc) (cands : List Signer) :
-    EntryOK k s loc (newEntry s loc cands) := by
-  have key : ∀ st : Store, StoreOK k s loc st →
-      EntryOK k s loc { store := st, loaded := st.doc.isSome &&
+theorem entryOK_new (s : State) (h : Inv s) (loc : Loc) (cands : List Signer) :
+    EntryOK s loc (newEntry s loc cands) := by
+  have key : ∀ st : Store, StoreOK s loc st →
+      EntryOK s loc { store := st, loaded := st.doc.isSome &&
         (!(persistedNeedsSignerUnderVerify && s.cfg.sigMode == .verify) || st.signer.isSome), chains := cands } := by
     intro st hst
-    refine ⟨hst, ?_, ?_, ?_, ?_⟩
+    refine ⟨hst, ?_, ?_, ?_⟩
     · intro hx
       simp only [Bool.and_eq_true] at hx
       exact hx.1
@@ -622,46 +614,45 @@ theorem entryOK_new (k : Bool) (s : State) (h : Inv k s) (loc : Loc) (cands : Li
         Bool.and_eq_true] at hx
       exact hx.2
     · intro hx; cases hx
-    · intro _ hx; cases hx
   unfold newEntry
   by_cases hd : s.cfg.disk = true
   · simp only [hd, ↓reduceIte]
     cases hl : lookup s.disk loc with
     | none =>
       simp only [Option.getD_none]
-      exact key {} (storeOK_empty k s loc)
+      exact key {} (storeOK_empty s loc)
     | some st =>
       simp only [Option.getD_some]
       exact key st (h.2 (loc, st) (lookup_mem _ _ _ hl))
   · simp only [hd, Bool.false_eq_true, ↓reduceIte]
-    exact key {} (storeOK_empty k s loc)
+    exact key {} (storeOK_empty s loc)
 
-theorem entryOK_hasLocs (k : Bool) (s : State) (loc : Loc) (e : Entry) (he : EntryOK k s loc e) :
-    EntryOK k s loc { e with store := { e.store with hasLocs := true } } :=
-  ⟨⟨he.store.accepted, he.store.signer, he.store.verified⟩, he.loadedDoc, he.verifySigner, he.failed, he.failedLoaded⟩
+theorem entryOK_hasLocs (s : State) (loc : Loc) (e : Entry) (he : EntryOK s loc e) :
+    EntryOK s loc { e with store := { e.store with hasLocs := true } } :=
+  ⟨⟨he.store.accepted, he.store.signer, he.store.verified⟩, he.loadedDoc, he.verifySigner, he.failed⟩
 
 /-- The signature-certificate retry of `AddCRL`: the candidates presented now verify the list whose verification failed at the
-last refresh; its signer certificate is stored with the entry's current store. -/
-theorem entryOK_retry (k : Bool) (s : State) (loc : Loc) (e : Entry) (d : DocA) (cands : List Signer)
-    (he : EntryOK k s loc e) (hsf : e.sigFailed = true) (hld : e.lastDoc = some d) (hv : verifies d cands = true) :
-    EntryOK k { setEntry s loc { e with sigFailed := false, store := { e.store with signer := some d.signer } } with
+last refresh; its signer certificate is stored with the entry's current store. Only for loaded entries. -/
+theorem entryOK_retry (s : State) (loc : Loc) (e : Entry) (d : DocA) (cands : List Signer)
+    (he : EntryOK s loc e) (hsf : e.sigFailed = true) (hloaded : e.loaded = true) (hld : e.lastDoc = some d)
+    (hv : verifies d cands = true) :
+    EntryOK { setEntry s loc { e with sigFailed := false, store := { e.store with signer := some d.signer } } with
         log := s.log ++ [⟨loc, d, cands, s.cfg.sigMode⟩] } loc
       { e with sigFailed := false, store := { e.store with signer := some d.signer } } := by
   have hl : ∀ a ∈ s.log, a ∈ ({ setEntry s loc { e with sigFailed := false, store := { e.store with signer := some d.signer } } with
         log := s.log ++ [⟨loc, d, cands, s.cfg.sigMode⟩] } : State).log := fun a ha => by simp [ha]
   have hnew : (⟨loc, d, cands, s.cfg.sigMode⟩ : Accept) ∈ ({ setEntry s loc { e with sigFailed := false, store := { e.store with signer := some d.signer } } with
         log := s.log ++ [⟨loc, d, cands, s.cfg.sigMode⟩] } : State).log := by simp
-  refine ⟨⟨?_, ?_, ?_⟩, he.loadedDoc, fun _ _ => rfl, ?_, ?_⟩
+  refine ⟨⟨?_, ?_, ?_⟩, he.loadedDoc, fun _ _ => rfl, ?_⟩
   · intro d' hd'
     exact accepted_mono hl (he.store.accepted d' hd')
   · intro sg hs
     cases hs
     exact ⟨_, hnew, rfl, rfl, hv⟩
-  · intro hk d' hd' _
+  · intro d' hd' _
     rcases he.failed hsf with hmv | ⟨_, _, hsame⟩
-    · -- under `verify` the entry is loaded, so its store already carried a signer certificate
-      have hld' := he.failedLoaded hk hsf
-      exact verified_mono hl (he.store.verified hk d' hd' (he.verifySigner hmv hld'))
+    · -- under `verify` the entry is loaded (the retry only runs for loaded entries), so its store already carried a signer certificate
+      exact verified_mono hl (he.store.verified d' hd' (he.verifySigner hmv hloaded))
     · -- under `verify_log` the store holds exactly the list whose verification failed
       have := hsame d hld
       have hdd : d' = d := by
@@ -670,19 +661,18 @@ theorem entryOK_retry (k : Bool) (s : State) (loc : Loc) (e : Entry) (d : DocA) 
       subst hdd
       exact ⟨_, hnew, rfl, rfl, hv⟩
   · intro hx; cases hx
-  · intro _ hx; cases hx
 
-theorem inv_loadActively (k : Bool) (s : State) (loc : Loc) (e : Entry) (cands : List Signer) (h : Inv k s)
-    (he : EntryOK k s loc e) (hnl : e.loaded = false) : Inv k (loadActively s loc e cands).1 := by
+theorem inv_loadActively (s : State) (loc : Loc) (e : Entry) (cands : List Signer) (h : Inv s)
+    (he : EntryOK s loc e) (hnl : e.loaded = false) : Inv (loadActively s loc e cands).1 := by
   unfold loadActively
   by_cases hc : (e.closed && closedEntriesSkipped) = true
   · simp only [hc, ↓reduceIte]; exact h
   · simp only [hc, Bool.false_eq_true, ↓reduceIte]
-    have he3 := entryOK_hasLocs k s loc e he
-    exact inv_loadCRL k _ loc _ cands (inv_setEntry k s loc _ h he3)
+    have he3 := entryOK_hasLocs s loc e he
+    exact inv_loadCRL _ loc _ cands (inv_setEntry s loc _ h he3)
       (entryOK_mono (s := s) (s' := setEntry s loc _) rfl (fun a ha => ha) he3) hnl
 
-theorem inv_addCRL (k : Bool) (s : State) (loc : Loc) (cands : List Signer) (h : Inv k s) : Inv k (addCRL s loc cands).1 := by
+theorem inv_addCRL (s : State) (loc : Loc) (cands : List Signer) (h : Inv s) : Inv (addCRL s loc cands).1 := by
   unfold addCRL
   by_cases hu : s.unsupported.contains loc = true
   · simp only [hu, ↓reduceIte]; exact h
@@ -691,7 +681,7 @@ theorem inv_addCRL (k : Bool) (s : State) (loc : Loc) (cands : List Signer) (h :
     cases hl : lookup s.entries loc with
     | some e =>
       simp only
-      have he : EntryOK k s loc e := entryOK_of_mem k s h loc e hl
+      have he : EntryOK s loc e := entryOK_of_mem s h loc e hl
       -- `added = false`: no location write
       simp only [Bool.false_and, Bool.false_eq_true, ↓reduceIte]
       by_cases hact : (s.cfg.fetch == FetchMode.actively && !e.loaded) = true
@@ -699,33 +689,35 @@ theorem inv_addCRL (k : Bool) (s : State) (loc : Loc) (cands : List Signer) (h :
         have hnl : e.loaded = false := by
           simp only [Bool.and_eq_true, Bool.not_eq_true'] at hact
           exact hact.2
-        exact inv_loadActively k s loc e cands h he hnl
+        exact inv_loadActively s loc e cands h he hnl
       · simp only [hact, Bool.false_eq_true, ↓reduceIte]
-        by_cases hsf : e.sigFailed = true
+        by_cases hsf : (e.sigFailed && (e.loaded || !retryOnlyWhenLoaded)) = true
         · simp only [hsf, ↓reduceIte]
+          have hsf' : e.sigFailed = true ∧ e.loaded = true := by
+            simpa [retryOnlyWhenLoaded] using hsf
           cases hld : e.lastDoc with
           | none => exact h
           | some d =>
             simp only
             by_cases hv : verifies d cands = true
             · simp only [hv, ↓reduceIte]
-              have hr := entryOK_retry k s loc e d cands he hsf hld hv
+              have hr := entryOK_retry s loc e d cands he hsf'.1 hsf'.2 hld hv
               rw [hld] at hr
-              exact inv_setEntry_log k s loc _ _ h hr
+              exact inv_setEntry_log s loc _ _ h hr
             · simp only [hv, Bool.false_eq_true, ↓reduceIte]; exact h
         · simp only [hsf, Bool.false_eq_true, ↓reduceIte]; exact h
     | none =>
       simp only
-      have he : EntryOK k s loc (newEntry s loc cands) := entryOK_new k s h loc cands
-      have h1 : Inv k (setEntry s loc (newEntry s loc cands)) := inv_setEntry k s loc _ h he
-      have he1 : EntryOK k (setEntry s loc (newEntry s loc cands)) loc (newEntry s loc cands) :=
+      have he : EntryOK s loc (newEntry s loc cands) := entryOK_new s h loc cands
+      have h1 : Inv (setEntry s loc (newEntry s loc cands)) := inv_setEntry s loc _ h he
+      have he1 : EntryOK (setEntry s loc (newEntry s loc cands)) loc (newEntry s loc cands) :=
         entryOK_mono (s := s) (s' := setEntry s loc _) rfl (fun a ha => ha) he
       by_cases hst : (true && !(newEntry s loc cands).loaded && locationsStoredOnAdd) = true
       · simp only [hst, ↓reduceIte]
-        have he1' := entryOK_hasLocs k _ loc _ he1
-        have h2 : Inv k (setEntry (setEntry s loc (newEntry s loc cands)) loc
+        have he1' := entryOK_hasLocs _ loc _ he1
+        have h2 : Inv (setEntry (setEntry s loc (newEntry s loc cands)) loc
             { newEntry s loc cands with store := { (newEntry s loc cands).store with hasLocs := true } }) :=
-          inv_setEntry k _ loc _ h1 he1'
+          inv_setEntry _ loc _ h1 he1'
         by_cases hact : ((setEntry (setEntry s loc (newEntry s loc cands)) loc
             { newEntry s loc cands with store := { (newEntry s loc cands).store with hasLocs := true } }).cfg.fetch == FetchMode.actively &&
             !(newEntry s loc cands).loaded) = true
@@ -737,11 +729,11 @@ theorem inv_addCRL (k : Bool) (s : State) (loc : Loc) (cands : List Signer) (h :
             (s' := setEntry (setEntry s loc (newEntry s loc cands)) loc
               { newEntry s loc cands with store := { (newEntry s loc cands).store with hasLocs := true } })
             rfl (fun a ha => ha) he1'
-          exact inv_loadActively k _ loc _ cands h2 he2 hnl
+          exact inv_loadActively _ loc _ cands h2 he2 hnl
         · simp only [hact, Bool.false_eq_true, ↓reduceIte]
           -- a new entry never has sigFailed set
           have : (newEntry s loc cands).sigFailed = false := rfl
-          simp only [this, Bool.false_eq_true, ↓reduceIte]
+          simp only [this, Bool.false_and, Bool.false_eq_true, ↓reduceIte]
           exact h2
       · simp only [hst, Bool.false_eq_true, ↓reduceIte]
         by_cases hact : ((setEntry s loc (newEntry s loc cands)).cfg.fetch == FetchMode.actively &&
@@ -750,16 +742,41 @@ theorem inv_addCRL (k : Bool) (s : State) (loc : Loc) (cands : List Signer) (h :
           have hnl : (newEntry s loc cands).loaded = false := by
             simp only [Bool.and_eq_true, Bool.not_eq_true'] at hact
             exact hact.2
-          exact inv_loadActively k _ loc _ cands h1 he1 hnl
+          exact inv_loadActively _ loc _ cands h1 he1 hnl
         · simp only [hact, Bool.false_eq_true, ↓reduceIte]
           have : (newEntry s loc cands).sigFailed = false := rfl
-          simp only [this, Bool.false_eq_true, ↓reduceIte]
+          simp only [this, Bool.false_and, Bool.false_eq_true, ↓reduceIte]
           exact h1
 
 end Crv.Repo
 
 namespace Crv.Repo
 open Crv Crv.Generated
+
+/-! ### The signature-certificate retry needs a loaded entry -/
+
+/-- `AddCRL` for an entry that exists and is not loaded, without the active load (fetch mode `background`): nothing happens —
+in particular the signature-certificate retry does not run, whatever the failure flag, `LastUpdateSignature` and the presented
+candidates (`retryOnlyWhenLoaded`; before the repair it stored a signer certificate with a store it did not belong to). -/
+theorem retry_needs_loaded (s : State) (loc : Loc) (cands : List Signer) (e : Entry)
+    (hl : lookup s.entries loc = some e) (hnl : e.loaded = false) (hf : s.cfg.fetch ≠ .actively) :
+    (addCRL s loc cands).1 = s := by
+  unfold addCRL
+  by_cases hu : s.unsupported.contains loc = true
+  · simp only [hu, ↓reduceIte]
+  · have hfb : (s.cfg.fetch == FetchMode.actively) = false := by
+      cases hfm : s.cfg.fetch with
+      | actively => exact absurd hfm hf
+      | background => rfl
+    simp only [hu, Bool.false_eq_true, ↓reduceIte, hl, Bool.false_and, hfb, hnl, retryOnlyWhenLoaded, Bool.not_true,
+      Bool.or_self, Bool.and_false]
+
+theorem retry_needs_loaded_signer (s : State) (loc : Loc) (cands : List Signer) (e : Entry)
+    (hl : lookup s.entries loc = some e) (hnl : e.loaded = false) (hf : s.cfg.fetch ≠ .actively) :
+    ∀ e', lookup (addCRL s loc cands).1.entries loc = some e' → e'.store.signer = e.store.signer := by
+  rw [retry_needs_loaded s loc cands e hl hnl hf]
+  intro e' he'
+  rw [hl] at he'; cases he'; rfl
 
 /-! ### With fetch mode `actively`, a successful `AddCRL` leaves a loaded entry -/
 
@@ -806,7 +823,7 @@ theorem addCRL_actively_loaded (s : State) (loc : Loc) (cands : List Signer) (hf
         have hld : e.loaded = true := by
           simp only [hf, beq_self_eq_true, Bool.true_and, Bool.not_eq_true', Bool.not_eq_false] at hact
           exact hact
-        by_cases hsf : e.sigFailed = true
+        by_cases hsf : (e.sigFailed && (e.loaded || !retryOnlyWhenLoaded)) = true
         · simp only [hsf, ↓reduceIte]
           cases hlast : e.lastDoc with
           | none => intro e' he'; simp only at he'; rw [hl] at he'; cases he'; exact hld
@@ -841,7 +858,7 @@ theorem addCRL_actively_loaded (s : State) (loc : Loc) (cands : List Signer) (hf
             !(newEntry s loc cands).loaded) = true
         · simp only [hact, ↓reduceIte] at hok ⊢
           exact loadActively_ok_loaded _ loc _ cands hok
-        · simp only [hact, Bool.false_eq_true, ↓reduceIte, hnf]
+        · simp only [hact, Bool.false_eq_true, ↓reduceIte, hnf, Bool.false_and]
           have hld : (newEntry s loc cands).loaded = true := by
             simp only [setEntry_cfg, hf, beq_self_eq_true, Bool.true_and, Bool.not_eq_true', Bool.not_eq_false] at hact
             exact hact
@@ -856,64 +873,50 @@ end Crv.Repo
 namespace Crv.Repo
 open Crv Crv.Generated
 
-theorem inv_updateOne (k : Bool) (s : State) (loc : Loc) (h : Inv k s) : Inv k (updateOne s loc) := by
+theorem inv_updateOne (s : State) (loc : Loc) (h : Inv s) : Inv (updateOne s loc) := by
   unfold updateOne
   cases hl : lookup s.entries loc with
   | none => exact h
   | some e =>
     simp only
-    have he := entryOK_of_mem k s h loc e hl
+    have he := entryOK_of_mem s h loc e hl
     by_cases hcl : (e.closed && closedEntriesSkipped) = true
     · simp only [hcl, ↓reduceIte]; exact h
     · simp only [hcl, Bool.false_eq_true, ↓reduceIte]
       by_cases hld : (!e.loaded) = true
       · simp only [hld, ↓reduceIte]
-        exact inv_loadCRL k s loc e _ h he (by simpa using hld)
+        exact inv_loadCRL s loc e _ h he (by simpa using hld)
       · simp only [hld, Bool.false_eq_true, ↓reduceIte]
-        exact inv_updateCrlEntry k s loc e none h he (fun _ => Or.inl (by simpa using hld))
+        exact inv_updateCrlEntry s loc e none h he
 
-theorem inv_updateAll (k : Bool) (order : List Loc) : ∀ s, Inv k s → Inv k (updateAll s order) := by
+theorem inv_updateAll (order : List Loc) : ∀ s, Inv s → Inv (updateAll s order) := by
   induction order with
   | nil => intro s h; exact h
-  | cons l t ih => intro s h; exact ih _ (inv_updateOne k s l h)
+  | cons l t ih => intro s h; exact ih _ (inv_updateOne s l h)
 
-/-- Provisioning of one configured CRL: `AddCRL`, then `UpdateCRL` — a refresh whatever the loaded flag. With `k = true`:
-under fetch mode `actively` (the entry is loaded after a successful `AddCRL`) or while the mode is not `verify`. -/
-theorem inv_provisionOne (k : Bool) (s : State) (loc : Loc) (trusted : List Signer) (h : Inv k s)
-    (hk : k = true → s.cfg.fetch = .actively ∨ s.cfg.sigMode ≠ .verify) : Inv k (provisionOne s loc trusted).1 := by
+/-- Provisioning of one configured CRL: `AddCRL`, then `UpdateCRL` — a refresh whatever the loaded flag. -/
+theorem inv_provisionOne (s : State) (loc : Loc) (trusted : List Signer) (h : Inv s) : Inv (provisionOne s loc trusted).1 := by
   unfold provisionOne
-  have h1 := inv_addCRL k s loc trusted h
-  have hc := addCRL_cfg s loc trusted
-  have hal := addCRL_actively_loaded s loc trusted
+  have h1 := inv_addCRL s loc trusted h
   cases hadd : addCRL s loc trusted with
   | mk s1 rest =>
     obtain ⟨added, o1⟩ := rest
-    rw [hadd] at h1 hc hal
-    simp only at h1 hc hal ⊢
+    rw [hadd] at h1
+    simp only at h1 ⊢
     by_cases ho : (o1 == Outcome.err) = true
     · simp only [ho, ↓reduceIte]; exact h1
     · simp only [ho, Bool.false_eq_true, ↓reduceIte]
       cases hl : lookup s1.entries loc with
       | none => exact h1
-      | some e =>
-        refine inv_updateCrlEntry k s1 loc e _ h1 (entryOK_of_mem k s1 h1 loc e hl) ?_
-        intro hk'
-        rcases hk hk' with hf | hm
-        · left
-          have hok : o1 = .ok := by
-            cases o1 with
-            | ok => rfl
-            | err => simp at ho
-          exact hal hf hok e hl
-        · right; rw [hc]; exact hm
+      | some e => exact inv_updateCrlEntry s1 loc e _ h1 (entryOK_of_mem s1 h1 loc e hl)
 
-theorem inv_handshake (k : Bool) (s : State) (c : Cert) (cands : List Signer) (h : Inv k s) : Inv k (handshake s c cands).1 := by
+theorem inv_handshake (s : State) (c : Cert) (cands : List Signer) (h : Inv s) : Inv (handshake s c cands).1 := by
   unfold handshake
   cases hc : c.cdp with
   | none => exact h
   | some loc =>
     simp only
-    have h1 := inv_addCRL k s loc cands h
+    have h1 := inv_addCRL s loc cands h
     cases hadd : addCRL s loc cands with
     | mk s1 rest =>
       obtain ⟨added, o⟩ := rest
@@ -921,42 +924,42 @@ theorem inv_handshake (k : Bool) (s : State) (c : Cert) (cands : List Signer) (h
       exact h1
 
 /-- A restart drops the entries; what is on disk stays as it was taken in (whatever the mode afterwards). -/
-theorem inv_drop (k : Bool) (s s' : State) (hl : ∀ a ∈ s.log, a ∈ s'.log) (he : s'.entries = [])
-    (hd : ∀ p ∈ s'.disk, p ∈ s.disk) (h : Inv k s) : Inv k s' := by
+theorem inv_drop (s s' : State) (hl : ∀ a ∈ s.log, a ∈ s'.log) (he : s'.entries = [])
+    (hd : ∀ p ∈ s'.disk, p ∈ s.disk) (h : Inv s) : Inv s' := by
   refine ⟨?_, ?_⟩
   · intro p hp; rw [he] at hp; cases hp
   · intro p hp; exact storeOK_mono hl (h.2 p (hd p hp))
 
-theorem inv_restart (k : Bool) (s : State) (h : Inv k s) : Inv k (restart s) :=
-  inv_drop k s (restart s) (fun _ ha => ha) rfl (fun _ hp => hp) h
+theorem inv_restart (s : State) (h : Inv s) : Inv (restart s) :=
+  inv_drop s (restart s) (fun _ ha => ha) rfl (fun _ hp => hp) h
 
 /-- Restart with another signature mode: the entries are gone, what is on disk stays as it was taken in. -/
-theorem inv_reconfigure (k : Bool) (s : State) (m : SigMode) (h : Inv k s) : Inv k (reconfigure s m) :=
-  inv_drop k s (reconfigure s m) (fun _ ha => ha) rfl (fun _ hp => hp) h
+theorem inv_reconfigure (s : State) (m : SigMode) (h : Inv s) : Inv (reconfigure s m) :=
+  inv_drop s (reconfigure s m) (fun _ ha => ha) rfl (fun _ hp => hp) h
 
-theorem entryOK_closed (k : Bool) (s s' : State) (hm : s'.cfg.sigMode = s.cfg.sigMode) (hl : ∀ a ∈ s.log, a ∈ s'.log)
-    (loc : Loc) (e : Entry) (he : EntryOK k s loc e) : EntryOK k s' loc { e with closed := true } :=
+theorem entryOK_closed (s s' : State) (hm : s'.cfg.sigMode = s.cfg.sigMode) (hl : ∀ a ∈ s.log, a ∈ s'.log)
+    (loc : Loc) (e : Entry) (he : EntryOK s loc e) : EntryOK s' loc { e with closed := true } :=
   have h := entryOK_mono (s := s) (s' := s') hm hl he
-  ⟨⟨h.store.accepted, h.store.signer, h.store.verified⟩, h.loadedDoc, h.verifySigner, h.failed, h.failedLoaded⟩
+  ⟨⟨h.store.accepted, h.store.signer, h.store.verified⟩, h.loadedDoc, h.verifySigner, h.failed⟩
 
-theorem inv_close (k : Bool) (s : State) (h : Inv k s) : Inv k (close s) := by
+theorem inv_close (s : State) (h : Inv s) : Inv (close s) := by
   unfold close
   by_cases hc : closeMarksEntries = true
   · simp only [hc, ↓reduceIte]
-    refine inv_of k s _ rfl (fun _ ha => ha) ?_ (fun _ hp => Or.inl hp) h
+    refine inv_of s _ rfl (fun _ ha => ha) ?_ (fun _ hp => Or.inl hp) h
     intro p hp
     simp only [List.mem_map] at hp
     obtain ⟨q, hq, rfl⟩ := hp
     refine Or.inr ?_
-    apply entryOK_closed k s
+    apply entryOK_closed s
     · rfl
     · exact fun _ ha => ha
     · exact h.1 q hq
   · simp only [hc, Bool.false_eq_true, ↓reduceIte]
-    exact inv_drop k s _ (fun _ ha => ha) rfl (fun _ hp => hp) h
+    exact inv_drop s _ (fun _ ha => ha) rfl (fun _ hp => hp) h
 
-theorem inv_serve (k : Bool) (s : State) (loc : Loc) (sv : Served) (h : Inv k s) : Inv k (serve s loc sv) :=
-  inv_of k s (serve s loc sv) rfl (fun _ ha => ha) (fun _ hp => Or.inl hp) (fun _ hp => Or.inl hp) h
+theorem inv_serve (s : State) (loc : Loc) (sv : Served) (h : Inv s) : Inv (serve s loc sv) :=
+  inv_of s (serve s loc sv) rfl (fun _ ha => ha) (fun _ hp => Or.inl hp) (fun _ hp => Or.inl hp) h
 
 /-- The operations of a history. -/
 inductive Op
@@ -1063,79 +1066,31 @@ open Crv Crv.Generated
 
 /-! ### The invariant along every history -/
 
-theorem inv_step (k : Bool) (s : State) (op : Op) (h : Inv k s)
-    (hk : k = true → s.cfg.fetch = .actively ∨ op.isProvision = false ∨ s.cfg.sigMode ≠ .verify) : Inv k (step s op) := by
+theorem inv_step (s : State) (op : Op) (h : Inv s) : Inv (step s op) := by
   cases op with
-  | serve loc sv => exact inv_serve k s loc sv h
-  | handshake c cands => exact inv_handshake k s c cands h
-  | tick order => exact inv_updateAll k order s h
-  | provision loc trusted =>
-    refine inv_provisionOne k s loc trusted h ?_
-    intro hk'
-    rcases hk hk' with h1 | h1 | h1
-    · exact Or.inl h1
-    · cases h1
-    · exact Or.inr h1
-  | restart => exact inv_restart k s h
-  | reconfigure m => exact inv_reconfigure k s m h
-  | close => exact inv_close k s h
+  | serve loc sv => exact inv_serve s loc sv h
+  | handshake c cands => exact inv_handshake s c cands h
+  | tick order => exact inv_updateAll order s h
+  | provision loc trusted => exact inv_provisionOne s loc trusted h
+  | restart => exact inv_restart s h
+  | reconfigure m => exact inv_reconfigure s m h
+  | close => exact inv_close s h
   | markUnsupported loc =>
-    exact inv_of k s _ rfl (fun _ ha => ha) (fun _ hp => Or.inl hp) (fun _ hp => Or.inl hp) h
+    exact inv_of s _ rfl (fun _ ha => ha) (fun _ hp => Or.inl hp) (fun _ hp => Or.inl hp) h
 
-theorem inv_init (k : Bool) (cfg : Cfg) : Inv k { cfg := cfg } :=
+theorem inv_init (cfg : Cfg) : Inv { cfg := cfg } :=
   ⟨(fun p hp => by cases hp), (fun p hp => by cases hp)⟩
-
-/-- Every provisioning step of the history happens under fetch mode `actively` or while the signature mode is not `verify`.
-(The one step that breaks the strong invariant is the refresh half of provisioning on a *not loaded* entry under
-`verify` — only reachable with fetch mode `background`; see `Crv.Props.C16.background_provision_counterexample`.) -/
-def ProvisionsSafe (cfg : Cfg) (ops : List Op) : Prop :=
-  cfg.fetch = .actively ∨
-    ∀ pre loc trusted suf, ops = pre ++ Op.provision loc trusted :: suf → (run cfg pre).cfg.sigMode ≠ .verify
-
-theorem provisionsSafe_of_actively (cfg : Cfg) (ops : List Op) (h : cfg.fetch = .actively) : ProvisionsSafe cfg ops := Or.inl h
-
-theorem provisionsSafe_of_no_provision (cfg : Cfg) (ops : List Op) (h : ∀ op ∈ ops, op.isProvision = false) :
-    ProvisionsSafe cfg ops := by
-  refine Or.inr ?_
-  intro pre loc trusted suf heq
-  have := h (Op.provision loc trusted) (by rw [heq]; simp)
-  cases this
 
 theorem fetch_step (s : State) (op : Op) : (step s op).cfg.fetch = s.cfg.fetch := by
   rw [cfg_step]; cases op <;> rfl
 
-theorem inv_foldl (k : Bool) (ops : List Op) : ∀ s, Inv k s →
-    (k = true → s.cfg.fetch = .actively ∨
-      ∀ pre loc trusted suf, ops = pre ++ Op.provision loc trusted :: suf → (pre.foldl step s).cfg.sigMode ≠ .verify) →
-    Inv k (ops.foldl step s) := by
+theorem inv_foldl (ops : List Op) : ∀ s, Inv s → Inv (ops.foldl step s) := by
   induction ops with
-  | nil => intro s h _; exact h
-  | cons o t ih =>
-    intro s h hk
-    rw [List.foldl_cons]
-    apply ih
-    · apply inv_step k s o h
-      intro hk'
-      rcases hk hk' with h1 | h1
-      · exact Or.inl h1
-      · cases o with
-        | provision loc trusted => exact Or.inr (Or.inr (h1 [] loc trusted t rfl))
-        | _ => exact Or.inr (Or.inl rfl)
-    · intro hk'
-      rcases hk hk' with h1 | h1
-      · exact Or.inl (by rw [fetch_step]; exact h1)
-      · refine Or.inr ?_
-        intro pre loc trusted suf heq
-        have := h1 (o :: pre) loc trusted suf (by rw [heq]; rfl)
-        simpa [List.foldl_cons] using this
+  | nil => intro s h; exact h
+  | cons o t ih => intro s h; exact ih _ (inv_step s o h)
 
-/-- Every state reachable by any history satisfies the (general) invariant. -/
-theorem inv_run (cfg : Cfg) (ops : List Op) : Inv false (run cfg ops) :=
-  inv_foldl false ops _ (inv_init false cfg) (fun h => by cases h)
-
-/-- Along histories whose provisioning steps are safe, the strong invariant holds too. -/
-theorem inv_run_safe (cfg : Cfg) (ops : List Op) (h : ProvisionsSafe cfg ops) : Inv true (run cfg ops) :=
-  inv_foldl true ops _ (inv_init true cfg) (fun _ => h)
+/-- Every state reachable by any history satisfies the invariant. -/
+theorem inv_run (cfg : Cfg) (ops : List Op) : Inv (run cfg ops) := inv_foldl ops _ (inv_init cfg)
 
 /-! ### The ghost log along a run: it only grows, and every record carries the mode configured at its intake -/
 
